@@ -119,7 +119,8 @@ class Run:
         return True, out
 
     def harness_bin(self):
-        return str(HARNESS / "target" / "debug" / "harness")
+        # VERIF_HARNESS_BIN: tools/coverage.sh substitutes a coverage-instrumented build of the same harness
+        return os.environ.get("VERIF_HARNESS_BIN") or str(HARNESS / "target" / "debug" / "harness")
 
     def driver_bin(self):
         return str(LEAN / ".lake" / "build" / "bin" / "driver")
